@@ -6,7 +6,7 @@ from vlib import budget
 from vlib import session as S
 from vlib import wire
 from vlib.session import Monitor, parse_event
-from vlib.world import World, CONF
+from vlib.world import World, CONF, peer_open, KEEPALIVE, reactor
 
 PROPERTY = 'C02'
 LEVEL = 'exploration'
@@ -43,6 +43,9 @@ PREFIXES = [
     ('retry10', ['TICK', 'ACCEPT', 'OPEN', 'KA', 'STOP', 'START']),
     # a peer that was never reachable since boot: refusals / unanswered attempts in a row must not slow the reconnect down
     ('default', ['TICK', 'REFUSE'] * 6),
+    ('default', ['TICK', 'REFUSE'] * 13),
+    ('small', ['TICK', 'REFUSE'] * 13),
+    ('retry10', ['TICK'] * 26),
     ('retry10', ['TICK'] * 9),
     ('small', ['TICK', 'REFUSE', 'TICK', 'TICK', 'REFUSE', 'TICK', 'REFUSE', 'TICK', 'REFUSE']),
     ('idle0', ['TICK', 'ACCEPT', 'OPEN', 'KA', 'NOTI_CEASE']),
@@ -144,6 +147,54 @@ def continuation(r, cfgname, peer_hold, stats):
                  % (state0, how, mine3[0][3].hex() if mine3 else None, want), feats + ['second-fault:' + how])
 
 
+def cadence_case(cfgname, fault, n, defer=False):
+    """the same fault n times in a row: the pace of the reconnections must not depend on how many came before
+    (nothing in the past changes what the next session is offered, or when).  Returns (violations, attempts seen)"""
+    w = World(time_opts=CFGS[cfgname], defer_close=defer)
+    times, V = [], []
+    guard = 0
+    while len(times) < n and guard < 40 * n:
+        guard += 1
+        if not w.pending():
+            if not w.tick():
+                break
+            continue
+        times.append(w.now())
+        if fault == 'refuse':
+            w.refuse()
+        elif fault == 'timeout':
+            # nobody answers: the attempt ends by the agent's own doing (TCP timeout or ConnectRetry)
+            c = w.pending()[0]
+            g2 = 0
+            while c.state == 'connecting' and g2 < 50:
+                g2 += 1
+                if not w.tick():
+                    break
+        else:
+            tr = w.accept()
+            w.deliver(peer_open(), tr)
+            w.deliver(KEEPALIVE, tr)
+            if fault == 'peer-close':
+                w.peer_close(tr, clean=True)
+            elif fault == 'cease':
+                w.deliver(S.MSGS['NOTI_CEASE'][0], tr)
+            else:
+                w.deliver(S.MSGS['BADMARK'][0], tr)
+            if defer:
+                while reactor._io_pending:
+                    reactor.sim_complete_close(0)
+                    w.settle()
+    gaps = [round(b - a, 6) for a, b in zip(times, times[1:])]
+    if len(times) < n:
+        V.append(dict(kind='cadence-stops', features=['fault:' + fault], detail='%s x %d with configuration %s: only %d connection attempts, the last at t=%s (fsm %s)' % (
+            fault, n, cfgname, len(times), times[-1] if times else None, w.state_direct())))
+    elif len(set(gaps[1:])) > 1:
+        first = [i for i, g in enumerate(gaps[1:], 1) if g != gaps[1]][0]
+        V.append(dict(kind='cadence-changes', features=['fault:' + fault], detail='%s repeated with configuration %s: reconnection gaps %s ... then %s from attempt %d on' % (
+            fault, cfgname, gaps[1:4], gaps[first:first + 3], first + 1)))
+    return V, len(times)
+
+
 def plan(tier, seed):
     shards = []
     for name in CFGS:
@@ -159,6 +210,7 @@ def plan(tier, seed):
                            peer_hold=PEER_HOLDS[i % len(PEER_HOLDS)], start=[pre]))
         shards.append(dict(kind='bfs', cfg=name, part=0, nparts=1, d0=1, depth=PREFIX_DEPTH[tier], budget=BUDGET[tier],
                            peer_hold=90, start=[pre], defer=True))
+    shards.append(dict(kind='cadence', n=25 if tier == 'quick' else 120, cfg='default', peer_hold=90))
     n, length = WALKS[tier]
     nshard = 4 if tier == 'quick' else 16
     for i in range(nshard):
@@ -182,6 +234,21 @@ def run_shard(sh):
         for v in r.collect():
             viol.setdefault((v['kind'], tuple(v['features'])), v)
 
+    if sh['kind'] == 'cadence':
+        total = 0
+        for cfgname in CFGS:
+            for fault in ('refuse', 'timeout', 'peer-close', 'cease', 'bad-marker'):
+                for defer in (False, True):
+                    V, seen = cadence_case(cfgname, fault, sh['n'], defer)
+                    total += seen
+                    res['evaluations'] += 1
+                    res['distinct'].append('cadence|%s|%s|%s' % (cfgname, fault, defer))
+                    for v in V:
+                        viol.setdefault((v['kind'], tuple(v['features'])), dict(v, replay=dict(cadence=[cfgname, fault, sh['n'], defer])))
+        res['counters'] = dict(cadence_attempts_observed=total)
+        res['violations'] = list(viol.values())
+        res['sets']['peer_holds'] = [sh['peer_hold']]
+        return res
     if sh['kind'] == 'bfs':
         def on_state(r, seq):
             continuation(r, sh['cfg'], sh['peer_hold'], stats)
@@ -248,6 +315,8 @@ def floors(m, tier):
 
 
 def replay(rep):
+    if 'cadence' in rep:
+        return cadence_case(*rep['cadence'])[0]
     S.register_fuzz(rep.get('fuzz'))
     r = S.run_seq(rep['cfg'], rep['events'], [OpMonitor])
     cfgname = [k for k, v in CFGS.items() if v == rep['cfg'].get('time_opts')]
